@@ -14,7 +14,9 @@ def dispatch (st : St) (toks : List String) : String :=
     if cmd.startsWith "vdi." then vdiCmd st toks
     else if cmd.startsWith "vhd." then vhdCmd st toks
     else if cmd.startsWith "hds." then hdsCmd st toks
+    else if cmd.startsWith "hdd." then hddCmd st toks
     else if cmd.startsWith "vhdx." then vhdxCmd st toks
+    else if cmd.startsWith "vmdk.desc." || cmd.startsWith "desc." then vmdkDescCmd st toks
     else if cmd.startsWith "vmdk." then vmdkCmd st toks
     else if cmd.startsWith "qcow2." then qcow2Cmd st toks
     else "bad-cmd"
